@@ -37,6 +37,19 @@ pub fn ref_taint(
     order: &[Node],
     vals: &HashMap<Node, f32>,
 ) -> HashMap<Node, bool> {
+    ref_taint_ext(ctx, order, vals, false, false)
+}
+
+/// `grad`: also taint abs(-0.0) (the gradient evaluators return -0.0 there,
+/// finding F12).  `enclosure`: also taint atan2(0, 0) (stated exclusion of the
+/// enclosure property) and rand / mix of a zero (finding F6).
+pub fn ref_taint_ext(
+    ctx: &Context,
+    order: &[Node],
+    vals: &HashMap<Node, f32>,
+    grad: bool,
+    enclosure: bool,
+) -> HashMap<Node, bool> {
     let mut taint: HashMap<Node, bool> = HashMap::new();
     for n in order {
         let op = *ctx.get_op(*n).unwrap();
@@ -51,6 +64,24 @@ pub fn ref_taint(
             Op::Unary(UnaryOpcode::Rand, a) if vals[&a].is_nan() => t = true,
             Op::Binary(BinaryOpcode::Mix, l, r)
                 if vals[&l].is_nan() || vals[&r].is_nan() =>
+            {
+                t = true
+            }
+            Op::Unary(UnaryOpcode::Abs, a)
+                if grad && vals[&a].to_bits() == (-0.0f32).to_bits() =>
+            {
+                t = true
+            }
+            Op::Binary(BinaryOpcode::Atan, l, r)
+                if enclosure && vals[&l] == 0.0 && vals[&r] == 0.0 =>
+            {
+                t = true
+            }
+            Op::Unary(UnaryOpcode::Rand, a) if enclosure && vals[&a] == 0.0 => {
+                t = true
+            }
+            Op::Binary(BinaryOpcode::Mix, l, r)
+                if enclosure && (vals[&l] == 0.0 || vals[&r] == 0.0) =>
             {
                 t = true
             }
